@@ -16,6 +16,7 @@ from __future__ import annotations
 ID = 'PB'
 LEVEL = 'proof'
 BY_PROPERTY = {
+    'C01': [('Mahotas.Proofs.PyBodyTiesC01', ['Mahotas.pybody_morph_disk_eq_model', 'Mahotas.pybody_morph_disk_diskElem'])],
     'C02': [('Mahotas.Proofs.PyBodyTiesC02',
              ['Mahotas.pybody_morph_open_eq_model', 'Mahotas.pybody_morph_close_eq_model',
               'Mahotas.pybody_morph_cerode_eq_model', 'Mahotas.pybody_morph_cdilate_eq_model',
